@@ -98,11 +98,13 @@ def gen_ftext(rng):
     return text, list(C17.NAMES)
 
 
-def gen_case(rng):
+def gen_case(rng, fortran=True):
     nfiles = rng.choice([1, 1, 2, 2, 3, 4])
     files, names_all = [], set()
     # a third of the code bases is C only (the stream as it was), the others mix the two front ends
     p_fortran = rng.choice([0.0, 0.5, 0.5, 1.0])
+    if not fortran:  # C-family files only (C14's textperm stream: its theorems are about the C instance `C06C.analyse`)
+        p_fortran = 0.0
     for i in range(nfiles):
         kind = rng.random()
         if rng.random() < p_fortran:
